@@ -3,7 +3,7 @@ Every mnemonic x every operand-form combination of its class is assembled by the
 assembler and the emitted words are decoded by the independent decoder pdpmc/ref/isa.py."""
 import itertools
 from .. import driver
-from ..ref import isa
+from ..ref import isa, expr
 
 ID = "C01"
 LEVEL = "exploration"
@@ -16,7 +16,11 @@ RULE = ("complete product per mnemonic class: every one of the 252 mnemonics x e
         "emt/trap/sys fields; all 256 branch displacements; sob x 8 registers x 64 displacements) x link bases; quick pairs the 12 "
         "syntactic forms of double-operand instructions over 8 register pairings x 2 values, thorough takes the full 108 x 108 "
         "form product at 3 bases. Statements are assembled ~400 per program and decoded sequentially; any deviation re-runs every "
-        "statement of that program alone. Each mnemonic/form also runs as a one-instruction program. Non-trivial = distinct "
+        "statement of that program alone. Each mnemonic/form also runs as a one-instruction program. Further families: 22 symbols named "
+        "like registers/accumulators (ac1sav, r10, spx, ...) x 22 operand places of every operand-stub class x defined before/after x 2 "
+        "bases; operand values written as flat compound expressions 'a op1 b op2 c' for all 144 operator pairs x 3 prefixes x 9 operand "
+        "places (index, deferred index, immediate, absolute, relative, FP) x symbols before/after, value by the reference expression "
+        "reader; statements inside '.repeat'. Non-trivial = distinct "
         "(base, statement, expected decode) triple")
 ASSUMPTIONS = ["reference instruction table and decoder pdpmc/ref/isa.py (DESIGN.md Appendix A, handbook vectors in selftest)",
                "registers are spelled rN and accumulators acN here; other spellings are C10's subject"]
@@ -25,6 +29,34 @@ V = [0, 1, 0o177777, -1, 0o100000, "bk", "fw"]
 V_IDX = [0, 2, -2, "fs"]
 PAIRINGS = [(0, 0), (1, 2), (2, 1), (3, 7), (7, 3), (6, 5), (5, 6), (4, 4)]
 B = 400
+
+
+# symbols whose names merely begin like (or contain) a register or accumulator name
+LOOKALIKES = ["ac1sav", "ac0.t", "AC3_OLD", "ac4x", "ac6", "ac", "acc", "r1x", "r10", "R7B", "r0.1", "spx", "sp2", "pcx", "pc.0", "xr1", "xsp", "bac1", "r", "r8", "a0", "ac12"]
+# one consumer per operand-stub class and position: (mnemonic, class, opcode base, operand texts with S for the symbol, spec builder)
+LOOK_FORMS = [
+    ("clr", "D", 0o5000, "clr S", lambda v: [["gen", 6, 7, "rel", v]]),
+    ("clr", "D", 0o5000, "clr @S", lambda v: [["gen", 7, 7, "rel", v]]),
+    ("clr", "D", 0o5000, "clr S(r1)", lambda v: [["gen", 6, 1, "val", v]]),
+    ("clr", "D", 0o5000, "clr @S(r2)", lambda v: [["gen", 7, 2, "val", v]]),
+    ("clr", "D", 0o5000, "clr @#S", lambda v: [["gen", 3, 7, "val", v]]),
+    ("mov", "SD", 0o10000, "mov S, r0", lambda v: [["gen", 6, 7, "rel", v], ["gen", 0, 0, None, None]]),
+    ("mov", "SD", 0o10000, "mov r0, S", lambda v: [["gen", 0, 0, None, None], ["gen", 6, 7, "rel", v]]),
+    ("mov", "SD", 0o10000, "mov #S, r3", lambda v: [["gen", 2, 7, "val", v], ["gen", 0, 3, None, None]]),
+    ("mov", "SD", 0o10000, "mov S, S", lambda v: [["gen", 6, 7, "rel", v], ["gen", 6, 7, "rel", v]]),
+    ("jsr", "RD", 0o4000, "jsr r5, S", lambda v: [["reg", 5], ["gen", 6, 7, "rel", v]]),
+    ("xor", "RD", 0o74000, "xor r2, S", lambda v: [["reg", 2], ["gen", 6, 7, "rel", v]]),
+    ("mul", "SR", 0o70000, "mul S, r1", lambda v: [["gen", 6, 7, "rel", v], ["reg", 1]]),
+    ("tstf", "FD", 0o170500, "tstf S", lambda v: [["gen", 6, 7, "rel", v]]),
+    ("negd", "FD", 0o170700, "negd @S", lambda v: [["gen", 7, 7, "rel", v]]),
+    ("ldf", "FSA", 0o172400, "ldf S, ac0", lambda v: [["gen", 6, 7, "rel", v], ["ac", 0]]),
+    ("ldf", "FSA", 0o172400, "ldf S(r1), ac2", lambda v: [["gen", 6, 1, "val", v], ["ac", 2]]),
+    ("cmpf", "FSA", 0o173400, "cmpf #S, ac1", lambda v: [["gen", 2, 7, "val", v], ["ac", 1]]),
+    ("stf", "AFD", 0o174000, "stf ac1, S", lambda v: [["ac", 1], ["gen", 6, 7, "rel", v]]),
+    ("stexp", "AD", 0o175000, "stexp ac1, S", lambda v: [["ac", 1], ["gen", 6, 7, "rel", v]]),
+    ("ldexp", "SA", 0o176400, "ldexp S, ac3", lambda v: [["gen", 6, 7, "rel", v], ["ac", 3]]),
+    ("push", None, None, "push S", None), ("call", None, None, "call S", None),
+]
 
 
 def bound(tier):
@@ -218,6 +250,10 @@ def cases(tier):
         for b in BASES:
             yield {"k": "singles", "mn": mn, "base": b}
     yield {"k": "in-repeat"}
+    for i in range(len(LOOKALIKES)):
+        yield {"k": "lookalike", "i": i}
+    for op1 in expr.INFIX:
+        yield {"k": "operand-expr", "op1": op1}
     # negative trap numbers (accepted today as value mod 256): if accepted, the field must be v mod 256
     yield {"k": "negnum"}
 
@@ -351,6 +387,112 @@ def check(case, r, tier):
                 r.ran("ok" if good else "misencoded", key=("in-repeat-br", base, mn))
                 if not good:
                     r.violation("misencoded:in-repeat:branch", "%s bk inside .repeat 3 does not reach bk from every copy" % mn, {"k": "negnum"}, None, out.brief())
+        return
+    if k == "lookalike":
+        # an ordinary symbol whose name begins like a register or an accumulator is a symbol: defined before or after its use, as
+        # a constant, in every operand position of every operand-stub class
+        name = LOOKALIKES[case["i"]]
+        val = 0o4000 + 2 * case["i"]
+        for where in ("before", "after"):
+            for base in (None, 0o157776):
+                sts, specs = [], []
+                for mn, cls, opb, text, build in LOOK_FORMS:
+                    if cls is None:
+                        cls, opb, exp = isa.T[mn]
+                        ops = ([["gen", 6, 7, "rel", val], ["gen", 4, 6, None, None]] if mn == "push" else [["reg", 7], ["gen", 6, 7, "rel", val]])
+                    else:
+                        ops = build(val)
+                    sts.append(text.replace("S", name))
+                    specs.append([cls, opb, ops])
+                d = "%s = %o\n" % (name, val)
+                prog = (".link %o\n" % base if base is not None else "") + (d if where == "before" else "") + "".join(t + "\n" for t in sts) + (d if where == "after" else "")
+                out = driver.assemble([("i.mac", prog)])
+                r.extra["assembler_runs"] += 1
+                good = out.status == "ok"
+                if good:
+                    bad, why = decode_check(out.code, out.base, specs)
+                    good = bad is None
+                if good:
+                    for t in sts:
+                        r.ran("ok", key=("lookalike", where, base, t))
+                    continue
+                for t, sp in zip(sts, specs):
+                    one = (".link %o\n" % base if base is not None else "") + (d if where == "before" else "") + t + "\n" + (d if where == "after" else "")
+                    o1 = driver.assemble([("i.mac", one)])
+                    g1 = o1.status == "ok"
+                    why = o1.cls()
+                    if g1:
+                        bad, why = decode_check(o1.code, o1.base, [sp])
+                        g1 = bad is None
+                    r.ran("ok" if g1 else "misencoded", key=("lookalike", where, base, t))
+                    if not g1:
+                        r.violation("misencoded:symbol-named-like-register:%s" % sp[0], "%s with %s = %o defined %s: %s" % (t, name, val, where, why),
+                                    {"k": "prog", "text": one, "specs": [sp]}, None, o1.brief())
+        return
+    if k == "prog":
+        out = driver.assemble([("i.mac", case["text"])])
+        good = out.status == "ok"
+        why = out.cls()
+        if good:
+            bad, why = decode_check(out.code, out.base, case["specs"])
+            good = bad is None
+        r.ran("ok" if good else "misencoded", key=None)
+        if not good:
+            r.violation("misencoded:replay", str(why), case, None, out.brief())
+        return
+    if k == "operand-expr":
+        # operand values written as unbracketed compound expressions 'a op1 b op2 c' (also with a prefix operator), in every place an
+        # operand value can stand; the value is the reference reading of the flat expression (precedence climbing)
+        env = {"fs": 0o1234, "n3": 3, "two": 2}
+        leaves_t = ["fs", "2", "n3"]
+        leaves = [("lit", 0o1234), ("lit", 2), ("lit", 3)]
+        places = [("clr %s(r1)", "D", 0o5000, lambda v: [["gen", 6, 1, "val", v]]), ("clr @%s(r4)", "D", 0o5000, lambda v: [["gen", 7, 4, "val", v]]),
+                  ("mov %s(r2), r0", "SD", 0o10000, lambda v: [["gen", 6, 2, "val", v], ["gen", 0, 0, None, None]]),
+                  ("mov r0, %s(r3)", "SD", 0o10000, lambda v: [["gen", 0, 0, None, None], ["gen", 6, 3, "val", v]]),
+                  ("mov #%s, r0", "SD", 0o10000, lambda v: [["gen", 2, 7, "val", v], ["gen", 0, 0, None, None]]),
+                  ("clr @#%s", "D", 0o5000, lambda v: [["gen", 3, 7, "val", v]]), ("clr %s", "D", 0o5000, lambda v: [["gen", 6, 7, "rel", v]]),
+                  ("clr @%s", "D", 0o5000, lambda v: [["gen", 7, 7, "rel", v]]), ("ldf %s(r5), ac1", "FSA", 0o172400, lambda v: [["gen", 6, 5, "val", v], ["ac", 1]])]
+        for op2 in expr.INFIX:
+            for pre in ("", "-", "~"):
+                text_e = pre + ("%s %s %s %s %s" % (leaves_t[0], case["op1"], leaves_t[1], op2, leaves_t[2]))
+                lv = list(leaves)
+                if pre:
+                    lv[0] = ("un", pre, lv[0])
+                try:
+                    val = expr.evaluate(expr.climb([case["op1"], op2], lv))
+                except (expr.RefError, expr.TooBig):
+                    continue
+                if not -0o100000 <= val <= 0o177777:
+                    continue
+                sts, specs = [], []
+                for tmpl, cls, opb, build in places:
+                    sts.append(tmpl % text_e)
+                    specs.append([cls, opb, build(val & 0xFFFF)])
+                for where in ("before", "after"):
+                    d = "fs = 1234\nn3 = 3\n"
+                    prog = (d if where == "before" else "") + "".join(t + "\n" for t in sts) + (d if where == "after" else "")
+                    out = driver.assemble([("i.mac", prog)])
+                    r.extra["assembler_runs"] += 1
+                    good = out.status == "ok"
+                    if good:
+                        bad, why = decode_check(out.code, out.base, specs)
+                        good = bad is None
+                    if good:
+                        for t in sts:
+                            r.ran("ok", key=("operand-expr", where, t))
+                        continue
+                    for t, sp in zip(sts, specs):
+                        one = (d if where == "before" else "") + t + "\n" + (d if where == "after" else "")
+                        o1 = driver.assemble([("i.mac", one)])
+                        g1 = o1.status == "ok"
+                        why = o1.cls()
+                        if g1:
+                            bad, why = decode_check(o1.code, o1.base, [sp])
+                            g1 = bad is None
+                        r.ran("ok" if g1 else "misencoded", key=("operand-expr", where, t))
+                        if not g1:
+                            r.violation("misencoded:compound-operand-value:%s" % t.split("%")[0].split(" ")[0], "%s (symbols defined %s): %s; the value is %o" % (t, where, why, val & 0xFFFF),
+                                        {"k": "prog", "text": one, "specs": [sp]}, None, o1.brief())
         return
     if k == "negnum":
         for mn in ("emt", "trap", "sys"):
